@@ -12,7 +12,7 @@ from lian.common_structs import CallSite, CallPath, PathManager, PathTrie
 
 A, B, C = CallSite(1, 2, 3), CallSite(3, 4, 5), CallSite(5, 6, 7)
 BAD = CallSite(7, -1, 9)
-UNIVERSE = [CallPath((A,)), CallPath((A, B)), CallPath((A, B, C)), CallPath((A, C)), CallPath((B,)), CallPath((B, A)), CallPath((A, BAD)), ]
+UNIVERSE = [CallPath(()), CallPath((A,)), CallPath((A, B)), CallPath((A, B, C)), CallPath((A, C)), CallPath((B,)), CallPath((B, A)), CallPath((A, BAD)), ]
 NAMES = {id(A): 'A', id(B): 'B', id(C): 'C', id(BAD): 'X'}
 
 
